@@ -5,7 +5,8 @@ status, the existence of the code file, -Werror, -maxerrors and the summary coun
 line kinds up to the depth bound x every option set within the deviation bound is executed on the real
 assembler; counter boundaries bracket every plausible counter width; multi-file runs cover per-file effects.
 """
-import itertools, re
+import itertools
+import os, re
 from .. import core
 from ..fmt import pfile
 
@@ -105,7 +106,36 @@ def subspaces(tier):
     subs.append(('c:file-sequences<=%d' % fl, mf))
     subs.append(('d:branch-distance-programs', list(jprogs(tier))))
     subs.append(('e:expected-diagnostics', list(xprogs(tier))))
+    subs.append(('f:blocked-output-files', [{'k': 'b', 'blk': b, 'src': sk, 'opt': o} for b in range(len(BLOCK)) for sk in ('ok', 'warn', 'err', 'fatal')
+                                            for o in ([], ['-Werror'], ['-x'])]))
     return subs
+
+
+# (f) an output file that cannot be created (its name is a directory) is a fatal error: status 3, no code file, no crash -
+# whichever output it is and however late in the run it is opened (the debug-info files are written after the code file is closed)
+BLOCK = [(['-L'], 'a.lst'), (['-g', 'map'], 'a.map'), (['-g', 'noice'], 'a.noi'), (['-g', 'atmel'], 'a.obj'), (['-M'], 'a.mac'), (['-P'], 'a.i'),
+         ([], 'a.p'), (['-c'], 'a.h'), (['-a'], 'a.inc'), (['-p'], 'a.inc'), (['-o', 'out/x.p'], 'out/x.p'), (['-L', '-olist', 'l.lst'], 'l.lst'),
+         (['-a', '-shareout', 'sh.inc'], 'sh.inc')]
+
+
+def ev_blocked(case):
+    opt, blk = BLOCK[case['blk']]
+    src = '\tcpu 8080\nm\tmacro {export}\n\tnop\n\tendm\nx\tequ 1\n\tm\n%s\n\tnop\n' % SRC[case['src']]
+    core.put('a.asm', src)
+    os.makedirs(os.path.join(core.workdir(), blk))
+    o = core.run('asl', ['-q'] + opt + case['opt'] + ['a.asm'], variant='asan', timeout=20)
+    d = '%s | asl -q %s  with %s being a directory' % (case['src'], ' '.join(opt + case['opt']), blk)
+    ck = core.crashkind(o)
+    sig = 'blocked/%s/%%s' % blk.split('.')[-1]
+    if ck:
+        return core.R(False, ck, sig % ('crash/' + (core.asan_site(o.err) if ck == 'ASAN' else ck)), '%s on %s' % (ck, d))
+    want = (3,) if case['src'] in ('ok', 'warn', 'fatal') and not (case['src'] == 'warn' and '-Werror' in case['opt']) else (2, 3)
+    if o.rc not in want:
+        return core.R(False, 'rc', sig % ('rc-got%s' % o.rc), 'exit status %s, model %s on %s' % (o.rc, want, d))
+    pth = os.path.join(core.workdir(), 'out/x.p' if '-o' in opt else 'a.p')
+    if os.path.isfile(pth):
+        return core.R(False, 'codefile', sig % 'codefile', 'exit status %s and a code file on %s' % (o.rc, d))
+    return core.R(True, 'b-rc%d' % o.rc, nontrivial=True, states=['b|%d' % o.rc])
 
 
 # (e) EXPECT/ENDEXPECT blocks: an expected error that occurs is neither reported nor counted, one that does not occur is an
@@ -248,6 +278,8 @@ def evaluate(case):
         return ev_j(case)
     if case['k'] == 'x':
         return ev_x(case)
+    if case['k'] == 'b':
+        return ev_blocked(case)
     return ev_files(case)
 
 
